@@ -1059,6 +1059,11 @@ func (val Value) HasElement(elem Value) Value {
 	if !elem.IsKnown() {
 		return unknownResult
 	}
+	if !elem.IsWhollyKnown() {
+		// A partially-unknown element can't match any member yet, but
+		// it might once its unknown parts are known.
+		return unknownResult
+	}
 	noMatchResult := False
 	if !val.IsWhollyKnown() {
 		// If the set has any unknown elements then a failure to find a
